@@ -38,6 +38,15 @@ def structure_list(tier, seed):
             devs = [d for d in devs if not d[0].startswith("disp") or (int("".join(c for c in d[0][4:] if c.isdigit())) % 3 == 0 and d[0][-2:] in ("x+", "z-"))]
         for lab, at in devs:
             out.append((name + ":" + lab, at, lab))
+    # rigid translations out of the cell along non-periodic directions
+    for name, base, ads in families.f2_bases():
+        pbc = base.get_pbc()
+        if pbc.any() and not pbc.all():
+            k = [i for i in range(3) if not pbc[i]][0]
+            for f in (-1.3, 2.2):
+                a = base.copy()
+                a.positions += f * np.array(a.get_cell())[k]
+                out.append((name + ":shift%+g" % f, a, None))
     st = families.stack_base()
     out.append(("stack", st, None))
     for lab, at in families.deviations(st, [], kinds=("vac", "sub")):
@@ -81,6 +90,10 @@ def structure_list(tier, seed):
                 if tier == "quick" and (spacing != 2.6 or gi % 2) and not (kind == "cubic" and all(pbc)):
                     continue
                 at = families.gas_atoms(sites, cols, (29, 8), spacing, (2, 2, 2), pbc, cell_kind=kind, offset=off)
+                if kind == "cubic" and gi % 5 == 1 and any(pbc) and not all(pbc):
+                    # whole structure moved out of the cell along a non-periodic axis
+                    k = [i for i in range(3) if not pbc[i]][0]
+                    at.positions += 1.7 * np.array(at.get_cell())[k]
                 if kind == "cubic" and gi % 5 == 0 and any(pbc):
                     # unwrapped variant: first atom shifted out by a lattice vector
                     k = [i for i in range(3) if pbc[i]][0]
